@@ -419,3 +419,99 @@ PROPS["C01"] = simple(
                "for the three content routes; UI frames are sampled.",
     level_note="Trusted: kit/term's tokenizer. servitor's own SGRs are accepted by syntax (ESC [ digits/semicolons m) and parameter family (0,1,3,4,9,38;2;r;g;b,48;2;r;g;b), not by a closed colour list.",
 )
+
+
+# ---------------------------------------------------------------------------
+# syscall-level observers for the thorough tier (strace), judged by the runner
+# ---------------------------------------------------------------------------
+import glob as _glob, json as _json, os as _os, re as _re
+
+
+def c04_variants(tier, seed, s):
+    v = dict(name="default", config=DEFAULT_CFG)
+    if tier == "thorough":
+        return [v, dict(name="strace", config=DEFAULT_CFG, shards=2, wrap=["strace", "-f", "-qq", "-e", "trace=connect", "-o", "{rdir}/strace-{attempt}.txt"])]
+    return [v]
+
+
+_CONNECT = _re.compile(r'connect\(\d+, \{sa_family=(AF_INET6?), sin6?_port=htons\((\d+)\)')
+
+
+def c04_post(tier, r):
+    files = _glob.glob(_os.path.join(r["rdir"], "strace-*.txt"))
+    if not files:
+        return [], {}
+    try:
+        ports = _json.load(open(_os.path.join(r["rdir"], "ports.json")))
+    except Exception:
+        return [], {"strace_without_ports": 1}
+    # 443: the default port of https addresses without an explicit port (hostile handles such as "user@" or "b@host" have an empty or
+    # non-simulator authority; dialling that authority on 443 is what the statement prescribes); 53: name resolution; 9: the "refused" addresses of worlds
+    allowed = {ports["port"], ports["alt"], ports["canary"], 53, 9, 443}
+    seen, bad = {}, []
+    for f in files:
+        for line in open(f, errors="replace"):
+            m = _CONNECT.search(line)
+            if not m:
+                continue
+            port = int(m.group(2))
+            seen[port] = seen.get(port, 0) + 1
+            if port not in allowed and port != 0:
+                bad.append(line.strip()[:300])
+    out = []
+    if bad:
+        out.append(dict(signature="request:connect-to-unexpected-address", detail="connect() calls to addresses that are neither simulator listeners, the canary, nor DNS:\n" + "\n".join(bad[:10]), case="strace connect set"))
+    return out, {"strace_connect_calls": sum(seen.values()), "strace_distinct_ports": len(seen)}
+
+
+PROPS["C04"]["variants"] = c04_variants
+PROPS["C04"]["post"] = c04_post
+PROPS["C04"]["shards"] = dict(quick=6, thorough=16)
+
+
+_c20_base_variants = c20_variants
+
+
+def c20_variants_strace(tier, seed, s):
+    vs = _c20_base_variants(tier, seed, s)
+    if tier == "thorough":
+        for v in vs[:12]:
+            w = dict(v)
+            w["name"] = v["name"] + "-strace"
+            w["wrap"] = ["strace", "-f", "-qq", "-z", "-e", "trace=execve", "-s", "200", "-o", "{rdir}/strace-{attempt}.txt"]
+            vs.append(w)
+    return vs
+
+
+_EXECVE = _re.compile(r'execve\("([^"]*)", \[(.*?)\]')
+
+
+def c20_post(tier, r):
+    files = _glob.glob(_os.path.join(r["rdir"], "strace-*.txt"))
+    if not files:
+        return [], {}
+    execs, shells = 0, []
+    for f in files:
+        first = True
+        for line in open(f, errors="replace"):
+            m = _EXECVE.search(line)
+            if not m:
+                continue  # with -z only successful calls are logged; "resumed" lines carry no argument list
+            if first:
+                first = False  # the traced test binary itself
+                continue
+            execs += 1
+            base = _os.path.basename(m.group(1))
+            if base in ("sh", "bash", "dash", "zsh", "ksh", "env", "busybox"):
+                shells.append(line.strip()[:300])
+    hook_records = len(_glob.glob(_os.path.join(r["rdir"], "hook", "*.json")))
+    out = []
+    if shells:
+        out.append(dict(signature="hook:shell-in-between", detail="the hook was started through a shell:\n" + "\n".join(shells[:5]), case="strace execve"))
+    if execs != hook_records:
+        out.append(dict(signature="hook:execve-count", detail="%d successful execve calls but %d hook invocations recorded" % (execs, hook_records), case="strace execve"))
+    return out, {"strace_execve_calls": execs, "strace_hook_records": hook_records}
+
+
+PROPS["C20"]["variants"] = c20_variants_strace
+PROPS["C20"]["post"] = c20_post
